@@ -95,6 +95,26 @@ namespace ValueFlow
         return true;
     }
 
+    bool isValuePreservingConversion(const ValueType& src, const ValueType& dst, bool srcNonNegative, const Settings& settings)
+    {
+        if (!src.isIntegral() || !dst.isIntegral() || src.pointer != 0 || dst.pointer != 0)
+            return false;
+        const size_t srcSize = src.getSizeOf(settings, ValueType::Accuracy::ExactOrZero, ValueType::SizeOf::Pointer);
+        const size_t dstSize = dst.getSizeOf(settings, ValueType::Accuracy::ExactOrZero, ValueType::SizeOf::Pointer);
+        if (srcSize == 0 || dstSize == 0)
+            return false;
+        // same signedness: not narrower
+        if (src.sign == dst.sign && src.sign != ValueType::Sign::UNKNOWN_SIGN)
+            return dstSize >= srcSize;
+        // to a signed type: strictly wider than an unsigned (or plain char) source
+        if (dst.sign == ValueType::Sign::SIGNED)
+            return src.sign != ValueType::Sign::SIGNED && dstSize > srcSize;
+        // to an unsigned type: not narrower, and the source has no negative values
+        if (dst.sign == ValueType::Sign::UNSIGNED)
+            return srcNonNegative && dstSize >= srcSize;
+        return false;
+    }
+
     MathLib::bigint truncateIntValue(MathLib::bigint value, size_t value_size, const ValueType::Sign dst_sign)
     {
         if (value_size == 0)
